@@ -718,6 +718,15 @@ def _sim_common(report, want_c15, want_c16):
             conf = {"n": n, "ts": list(ts), "ordered": ordered, "batch": [0, 2][j % 2]}
             small = [["eg", "ucb1"], ["radius_city", "radius_cheb"], ["ts", "radius_ts", "lsh_ts"], ["linucb", "lints"]]
             sim.run_config(conf, small[(j + report.seed) % len(small)], report.seed + 500 + j, bool(j % 2), findings, counters, records)
+    # data large enough for the Simulator to split a batch into memory-sized chunks (12000 x 12000 distances > 1 GB):
+    # the chunking is an implementation detail, the script of public calls is the one of Sim.tla
+    if want_c15:
+        big = tlc.run("Sim", dict(Ns={24000}, TestSizes={(1, 2)}, Batches={12000, 7000}, Orders={True}, Scalers={False}),
+                      invariants=["Inv_C15_EachRowOnce"], view=None, constraint=None, workers=1, timeout=600)
+        report.add_tlc("Sim/chunked-batches", big, ["Inv_C15_EachRowOnce"], note="n = 24000: batches larger than the chunk size")
+        for j, conf in enumerate(big.edges):
+            conf = dict(conf, no_record=True)
+            sim.run_config(conf, ["eg", "ucb1", "linucb"], report.seed + 900 + j, True, findings, counters, records)
     res, ok, fails = sim.validate(records)
     report.add_tlc("TraceSim/recorded-runs", res, note="%d Simulator runs, public attributes recomputed exactly" % len(records))
     missing = set(range(1, len(records) + 1)) - ok - set(fails)
